@@ -1,10 +1,11 @@
 """Property id -> check function."""
 import json
 
-from . import props_value, props_obs, props_msg, props_decl
+from . import props_value, props_obs, props_msg, props_decl, props_surface
 
 CHECKS = {
     "C01": props_value.check_C01,
+    "C02": props_surface.check_C02,
     "C03": props_value.check_C03,
     "C04": props_obs.check_C04,
     "C06": props_obs.check_C06,
@@ -14,6 +15,7 @@ CHECKS = {
     "C11": props_obs.check_C11,
     "C12": props_obs.check_C12,
     "C13": props_obs.check_C13,
+    "C15": props_decl.check_C15,
     "C16": props_msg.check_C16,
 }
 
